@@ -1200,7 +1200,8 @@ package otr3
 //@   ensures result0 === plain && result2 == err
 
 //@ func (*Conversation).receiveUnit
-//@   requires convOK(c) && len(c.injections.messages) == 0 && !fragDone(c)
+//@   requires convOK(c) && len(c.injections.messages) == 0
+//@   requires [C14.once.pre,C05.frag.once.pre] !fragDone(c)
 //@   modifies anything
 //@   modifies macok(nil), mackey(nil), ctrok(nil), commitok(nil), akemacok(nil), sigok(nil), seclog(c), msglog(c), smplog(c), kmcWiped(addr(c.keys)), keysWiped(addr(c.keys)), akeWiped(c.ake), akeKeysWiped(c.ake), kmcWiped(addr(c.ake.keys)), keysWiped(addr(c.ake.keys))
 //@   ensures [C19.injections.flushed] len(c.injections.messages) == 0
